@@ -169,6 +169,67 @@ def check_summary_body(rep, ctx):
     rep.add(Query("witness: log_connection_summary has both kinds of path", "witness-hit" if n_t and n_f else "witness-missed", "%d/%d" % (n_t, n_f), 0, "mirsym"))
 
 
+def explore_actor_arm(ctx, body, enum, variant):
+    ix = ctx.enums[enum].index(variant)
+
+    def hook(engine, ev):
+        if ev.callee.endswith("recv"):
+            n = sum(1 for e in engine.events if e.kind == "await" and e.callee.endswith("recv"))
+            if n == 1:
+                engine.require(ev.ret.discr() == 1)
+                engine.require(ev.ret.child(("v", "Some", 0)).discr() == ix)
+            else:
+                engine.require(ev.ret.discr() == 0)      # channel closed after the one message under study
+    eng = ctx.engine(loop_bound=1, max_paths=2000)
+    eng.event_hook = hook
+    return eng.explore(body)
+
+
+def map_ordinal(r, v):
+    """which `HashMap::new()` of the actor (in creation order) a map value is"""
+    news = [e for e in r.events if e.kind == "call" and e.callee.endswith("HashMap::new")]
+    o = origin(v)
+    for k, e in enumerate(news):
+        if e.ret is o or same_origin(e.ret, o):
+            return k
+    return None
+
+
+def check_actor_arms(rep, ctx):
+    """agent-status actor: a failed-authorization record is counted in the map that the status publisher reads."""
+    w = ctx.method("AgentStatusSharedState", "start_new")
+    body = w + "::{closure#0}"
+    if body not in ctx.idx.files or "AgentStatusAction" not in ctx.enums:
+        rep.add(Query("agent-status actor located", "inconclusive", "start_new::{closure#0} or AgentStatusAction not found", 0, "mirsym"))
+        return
+    rep.functions_encoded.append(body)
+
+    def maps_used(variant, rx):
+        used = set()
+        paths = explore_actor_arm(ctx, body, "AgentStatusAction", variant)
+        for r in paths:
+            for e in r.events:
+                if e.kind == "call" and re.search(rx, e.callee):
+                    used.add(map_ordinal(r, e.rargs[0]))
+        return used, paths
+    read_failed, _ = maps_used("GetAllFailedConnectionSummary", r"HashMap::(iter|values|into_iter)$|IntoIterator>::into_iter$")
+    read_plain, _ = maps_used("GetAllConnectionSummary", r"HashMap::(iter|values|into_iter)$|IntoIterator>::into_iter$")
+    ok_pub = len(read_failed) == 1 and len(read_plain) == 1 and read_failed != read_plain and None not in read_failed | read_plain
+    rep.add(Query("actor: the failed-authorization summary and the connection summary are two distinct maps, each read by its own getter", "holds" if ok_pub else "inconclusive",
+                  "failed=%s plain=%s" % (read_failed, read_plain), 0, "mirsym", key="C11.actor.maps"))
+    if not ok_pub:
+        return
+    for variant, want, nm in (("AddOneFailedConnectionSummary", read_failed, "failed-authorization"), ("AddOneConnectionSummary", read_plain, "connection")):
+        used, paths = maps_used(variant, r"HashMap::(entry|get_mut|insert|get|remove)$")
+        rep.add(Query("actor arm %s: lookup, insert and count increment all address the %s summary map" % (variant, nm), "holds" if used == want else "violated",
+                      "maps touched %s, published map %s" % (used, want), 0, "mirsym", key="C11.actor.arm:" + variant, reproduced=None,
+                      replay=None if used == want else save_replay("C11", "actor_%s.json" % variant, json.dumps({"maps_touched": sorted(map(str, used)), "published": sorted(map(str, want))}))))
+        # first occurrence inserts, later ones increment: both branches exist
+        vac = any(e.callee.endswith("VacantEntry::insert") or e.callee.endswith("::insert") for r in paths for e in r.events if e.kind == "call")
+        inc = any(e.callee.endswith("HashMap::get_mut") for r in paths for e in r.events if e.kind == "call")
+        rep.add(Query("witness: actor arm %s has an insert branch and an increment branch" % variant, "witness-hit" if vac and inc else "witness-missed", "", 0, "mirsym"))
+
+
 def check(rep, tier, seed):
     ctx = Ctx("agent")
     rep.extra["mir_dump"] = {"cache_hit": ctx.dump.cache_hit, "tree_hash": ctx.dump.hash, "seconds": round(ctx.dump.seconds, 1)}
@@ -177,8 +238,11 @@ def check(rep, tier, seed):
     hm = HandlerModel(ctx, rep)
     check_handler_recording(rep, hm)
     check_summary_body(rep, ctx)
+    check_actor_arms(rep, ctx)
+    import p_c02
+    p_c02.check_decision(rep, ctx)     # a denial is a denial in every mode but Disabled: is_allowed's decision does not depend on Audit/Enforce
     rep.assumptions += ["is_allowed (beyond its Disabled prefix) is uninterpreted in the authorizers: any decision", "Future::poll returns Ready"]
-    rep.outside_claim += ["the status-file writer", "the actor's per-key counter arithmetic (HashMap entry API)", "concurrent connections (each handler instance is independent; the counter is serialised by the actor)"]
+    rep.outside_claim += ["the status-file writer", "the HashMap entry API itself and u64 overflow of a count", "concurrent connections (each handler instance is independent; the counter is serialised by the actor)"]
     rep.trusted += ["mirsym", "z3"]
 
 
